@@ -47,6 +47,7 @@ pub fn catch<R>(f: impl FnOnce() -> R) -> Result<R, String> {
 
 pub mod boundary;
 pub mod ctx;
+pub mod fwd;
 pub mod gate;
 
 // ---------------------------------------------------------------------------
